@@ -385,6 +385,131 @@ def dupstores():
     return _cached('dup4', _scan_dupstores, procs=True)
 
 
+# ---------------------------------------------------------------------------------------------------------------------------------------
+# Merkle-Damgard padding written by assembly: where the 0x80 marker goes decides whether the length field still fits
+
+_MARK = re.compile(r'^BYTE PTR \[(\w+)\+(\w+)\*1(?:\+(0x[0-9a-f]+))?\],0x80$')
+_CMPK = re.compile(r'^(\w+),(0x[0-9a-f]+)$')
+
+
+def _scan_pad_threshold(obj):
+    """facts about `mov BYTE [blk + r], 0x80` ... `cmp r', K; jcc` ... `mov [blk + L], <length>`: the marker offset register (or the register
+    the copy loop compared it equal to), the comparison, which edge reaches the length store without running the compression function, and L"""
+    from . import asmint
+    insns, labels, funcs, syms = asmint.parse_obj(obj)
+    order = sorted(insns)
+    pos = {a: i for i, a in enumerate(order)}
+    fn_of = {}
+    cur = None
+    starts = {a: n for n, a in funcs.items()}
+    for a in order:
+        if a in starts:
+            cur = starts[a]
+        fn_of[a] = cur
+    out = []
+    for a in order:
+        ins = insns[a]
+        if ins['mn'] != 'mov':
+            continue
+        m = _MARK.match(ins['ops'].strip())
+        if not m:
+            continue
+        base, idx, disp = m.group(1), SUB64(m.group(2)), int(m.group(3), 16) if m.group(3) else 0
+        # registers known equal to the marker offset: the index itself, and what a `cmp idx, y; je <here>` compared it with
+        eq = {idx: 0}
+        for b in order[max(0, pos[a] - 40):pos[a]]:
+            i2 = insns[b]
+            if i2['mn'] in ('je', 'jz') and i2['ops'].split()[0] == '%x' % a:
+                c = insns[order[pos[b] - 1]]
+                if c['mn'] == 'cmp':
+                    o = [SUB64(x.strip()) for x in c['ops'].split(',')]
+                    if len(o) == 2 and idx in o and None not in o:
+                        eq[o[0] if o[1] == idx else o[1]] = 0
+        # forward: adjust for inc/add of the equal registers, find the first cmp <eq reg>, K + unsigned jcc
+        found = None
+        for b in order[pos[a] + 1:pos[a] + 60]:
+            i2 = insns[b]
+            o = [x.strip() for x in i2['ops'].split(',')] if i2['ops'] else []
+            if i2['mn'] in ('ret', 'call') or fn_of.get(b) != fn_of.get(a):
+                break
+            if i2['mn'] == 'cmp' and len(o) == 2 and SUB64(o[0]) in eq and re.match(r'^0x[0-9a-f]+$', o[1]):
+                j = insns.get(order[pos[b] + 1]) if pos[b] + 1 < len(order) else None
+                if j and j['mn'] in ('jb', 'jc', 'jnae', 'jbe', 'jna', 'ja', 'jnbe', 'jae', 'jnb', 'jnc') and SUB64(o[0]) != idx:
+                    found = (b, SUB64(o[0]), int(o[1], 16) - eq[SUB64(o[0])], j)
+                    break
+                if j and j['mn'] in ('jb', 'jc', 'jnae', 'jbe', 'jna', 'ja', 'jnbe', 'jae', 'jnb', 'jnc') and SUB64(o[0]) == idx and eq[idx] == 0:
+                    found = (b, idx, int(o[1], 16), j)
+                    break
+                continue
+            if o and SUB64(o[0]) in eq and i2['mn'] not in ('cmp', 'test'):
+                r_ = SUB64(o[0])
+                if i2['mn'] == 'inc':
+                    eq[r_] += 1
+                elif i2['mn'] == 'add' and len(o) == 2 and re.match(r'^0x[0-9a-f]+$', o[1]):
+                    eq[r_] += int(o[1], 16)
+                elif i2['mn'] == 'mov' and '[' in o[0]:
+                    pass
+                elif '[' not in o[0]:
+                    eq.pop(r_, None)            # redefined: no longer tied to the marker offset
+        if not found:
+            continue
+        b, reg, K, j = found
+        try:
+            tgt = int(j['ops'].split()[0], 16)
+        except (ValueError, IndexError):
+            continue
+        fall = order[pos[j['a']] + 1] if pos[j['a']] + 1 < len(order) else None
+
+        def reaches_len(start):
+            """displacement (relative to the block) of a store the edge reaches before any call: the length field"""
+            x = start
+            n = 0
+            while x is not None and x in insns and n < 40:
+                n += 1
+                i3 = insns[x]
+                if i3['mn'] in ('call', 'ret', 'jmp') or i3['mn'] in asmint.JCC:
+                    return None
+                mm = re.match(r'^(?:QWORD|DWORD) PTR \[(\w+)(?:\+(0x[0-9a-f]+))?\],\w+$', i3['ops'].strip()) if i3['mn'] in ('mov', 'movbe') else None
+                if mm and mm.group(1) == base:
+                    d3 = (int(mm.group(2), 16) if mm.group(2) else 0) - disp
+                    prev = insns[order[pos[x] - 1]]
+                    if prev['mn'] in ('bswap', 'movbe') or i3['mn'] == 'movbe' or d3 in (56, 112, 120):
+                        return d3
+                x = order[pos[x] + 1] if pos[x] + 1 < len(order) else None
+            return None
+        lt, lf = reaches_len(tgt), reaches_len(fall)
+        if (lt is None) == (lf is None):
+            continue
+        L = lt if lt is not None else lf
+        mn = j['mn']
+        taken_if = {'jb': '<', 'jc': '<', 'jnae': '<', 'jbe': '<=', 'jna': '<=', 'ja': '>', 'jnbe': '>', 'jae': '>=', 'jnb': '>=', 'jnc': '>='}[mn]
+        # the set of marker offsets r (0 <= r < block) for which the length-store edge is taken
+        if lt is not None:
+            fits = taken_if
+        else:
+            fits = {'<': '>=', '<=': '>', '>': '<=', '>=': '<'}[taken_if]
+        # largest r that fits
+        if fits == '<':
+            rmax = K - 1
+        elif fits == '<=':
+            rmax = K
+        else:
+            rmax = None         # the length store is taken for LARGE offsets: upside down
+        out.append({'fn': fn_of.get(a), 'a': a, 'cmp': b, 'reg': reg, 'K': K, 'jcc': mn, 'L': L, 'rmax': rmax,
+                    'marker': ins['txt'], 'test': insns[b]['txt'] + '; ' + j['txt']})
+    return out
+
+
+def SUB64(r_):
+    from .asmint import SUB
+    return SUB.get(r_)
+
+
+def pad_thresholds():
+    """{asm source: [facts]} - see _scan_pad_threshold"""
+    return _cached('padthr1', _scan_pad_threshold)
+
+
 def dupstore_fixture():
     """assemble data/fixtures/dupstore.asm with the tree's own assembler and scan it: -> facts"""
     src = os.path.join(os.path.dirname(__file__), 'data', 'fixtures', 'dupstore.asm')
